@@ -63,6 +63,7 @@ func TestVerif(t *testing.T) {
 		Components: metaComponents,
 	})
 	simkit.Main(t, propC03())
+	simkit.Main(t, propC42())
 }
 
 // ---------------------------------------------------------------------------------------
